@@ -1,4 +1,5 @@
-CONSTANTS MaxMut = 2  SetAll = FALSE
+CONSTANTS MaxMut = 2  SetMode = "few"
+  Kinds = {"Truncate", "FlipBit", "SetByte", "AddToByte", "CorruptPkgLen", "Splice", "Join"}
 INIT Init
 NEXT Next
 INVARIANT PlanOK
